@@ -178,6 +178,26 @@ def _act_str(a):
     raise ValueError(a)
 
 
+# timer names that contain pattern characters (a name is just a string): 0, 1, 2 -> these
+ODD_NAMES = ["slot[1]", "slot1", "s*", "done?", "done!", "a.b", "a+b"]
+
+
+def _tname(i):
+    if CTX.scenario.get("odd_names"):
+        return ODD_NAMES[i] if i < len(ODD_NAMES) else "n%d#" % i
+    return str(i)
+
+
+def _tnum(name):
+    if CTX.scenario.get("odd_names"):
+        name = str(name)
+        if name in ODD_NAMES:
+            return ODD_NAMES.index(name)
+        m = re.fullmatch(r"n(\d+)#", name)
+        return int(m.group(1)) if m else -1
+    return int(name) if re.fullmatch(r"\d+", str(name)) else -1
+
+
 class ScriptedProtocol(IProtocol):
     """Interprets the rule scripts of coq/Script.v."""
 
@@ -249,9 +269,9 @@ class ScriptedProtocol(IProtocol):
         k = a[0]
         p = self.provider
         if k == "settimer":
-            p.schedule_timer(str(a[1]), a[2])
+            p.schedule_timer(_tname(a[1]), a[2])
         elif k == "cancel":
-            p.cancel_timer(str(a[1]))
+            p.cancel_timer(_tname(a[1]))
         elif k == "send":
             if CTX.scenario.get("reuse_commands"):
                 # one command object used as a template and re-filled for every send
@@ -304,8 +324,8 @@ class ScriptedProtocol(IProtocol):
         self._fire("init", None, "init")
 
     def handle_timer(self, timer):
-        n = int(timer) if re.fullmatch(r"\d+", str(timer)) else -1
-        self._fire("timer", n, "timer %s" % (timer if n >= 0 else "corrupt:" + repr(timer)))
+        n = _tnum(timer)
+        self._fire("timer", n, "timer %s" % (n if n >= 0 else "corrupt:" + repr(timer)))
 
     def handle_packet(self, message):
         n = int(message) if re.fullmatch(r"\d+", str(message)) else -1
@@ -400,18 +420,25 @@ def _flag(node):
     return bool(node.protocol_encapsulator.protocol.flag)
 
 
+def _truthy(b, idx):
+    """the same truth value as a non-bool object (legal for a predicate: Python truthiness)"""
+    if not CTX.scenario.get("truthy_preds"):
+        return b
+    return ([1, ["x"], "yes", 2.5] if b else [0, [], "", None])[idx % 4]
+
+
 def make_assertion(idx, spec):
     kind, arg = spec
     name = "a%d" % idx
     if kind == "AP":
-        return assert_always_true_for_protocol(PROTO[arg], name)(lambda node: _flag(node))
+        return assert_always_true_for_protocol(PROTO[arg], name)(lambda node: _truthy(_flag(node), idx))
     if kind == "EP":
-        return assert_eventually_true_for_protocol(PROTO[arg], name)(lambda node: _flag(node))
+        return assert_eventually_true_for_protocol(PROTO[arg], name)(lambda node: _truthy(_flag(node), idx + 1))
     q = all if arg == "all" else any
     if kind == "ASIM":
-        return assert_always_true_for_simulation(name)(lambda nodes: q(_flag(n) for n in nodes))
+        return assert_always_true_for_simulation(name)(lambda nodes: _truthy(q(_flag(n) for n in nodes), idx + 2))
     if kind == "ESIM":
-        return assert_eventually_true_for_simulation(name)(lambda nodes: q(_flag(n) for n in nodes))
+        return assert_eventually_true_for_simulation(name)(lambda nodes: _truthy(q(_flag(n) for n in nodes), idx + 3))
     raise ValueError(spec)
 
 
